@@ -357,10 +357,17 @@ def _bucket_nonempty_after(bp: Path, kel: Optional[Term]) -> bool:
 def _comp_source_of(e: Event, path: Path, bound_name: str) -> Optional[Term]:
     """iterable of the comprehension (argument of a call on the same path) whose variable is `bound_name`
     and whose element is the construction e"""
+    places: List[Term] = []
     for c in path.events:
-        if c.kind != "call":
-            continue
-        for a in list(c.args) + [v for _, v in c.kwargs]:
+        if c.kind == "call":
+            places.extend(list(c.args) + [v for _, v in c.kwargs])
+        elif c.kind == "store":
+            places.append(c.value)
+    places.extend(v for v in path.env.values() if isinstance(v, tuple))
+    if path.exit[0] == "return" and path.exit[1] is not None:
+        places.append(path.exit[1])
+    for a in places:
+        if True:
             for s_ in subterms(a):
                 if s_[0] == "comp" and len(s_[3]) >= 1 and any(bound_name in g[0] for g in s_[3]) and e.term is not None and strip_ver(s_[2]) == strip_ver(e.term):
                     for g in s_[3]:
